@@ -154,12 +154,24 @@ def shard_heater(sh: Shard, combos, seed):
         sh.see("flag_configurations", (hflag is not None and hflag.kind, cflag is not None and cflag.kind))
         raws = [0, 270, 300, 360, 540, 541, 720, 65535]
         base = bytes(r.randrange(256) for _ in range(1024))
-        for units in ("C", "F"):
-            b0 = set_units(rig, base, units)
+        uref = tables.ref_of(acc[K.KEY_TEMP_UNITS])
+        unit_settings = ["C", "F"]
+        if uref.kind == "Enum" and uref.mask >= 3:
+            # the unit field can hold values beyond its two labels (a whole-byte enum: 2..255): whatever
+            # the library makes of such a setting, readings, symbol and limits must agree with each other
+            unit_settings += [("raw", v) for v in sorted({2, 3, uref.mask, r.randrange(2, uref.mask + 1)})]
+        for units in unit_settings:
+            if isinstance(units, tuple):
+                word = int.from_bytes(base[uref.pos : uref.pos + uref.width], "big")
+                word = (word & ~uref.field_mask) | ((units[1] & uref.mask) << uref.shift)
+                b0 = base[: uref.pos] + word.to_bytes(uref.width, "big") + base[uref.pos + uref.width :]
+                sh.count("heater_with_unit_field_beyond_its_labels")
+            else:
+                b0 = set_units(rig, base, units)
             # the heater's own setters (blocking and awaitable): a representable reading handed to
             # set_target_temperature writes exactly its word back
             spref = refs[K.KEY_SETPOINT_G]
-            if spref.rw is not None:
+            if spref.rw is not None and not isinstance(units, tuple):
                 conv0 = (lambda x: x / 18.0) if units == "C" else (lambda x: (x + 320) / 10.0)
                 for raw in [270, 271, 300, 541, 701, 719, 720] + [r.randrange(270, 721) for _ in range(8)]:
                     bb = put_word(b0, spref.pos, (raw ^ 0x155) & 0xFFFF)
@@ -189,6 +201,11 @@ def shard_heater(sh: Shard, combos, seed):
                         cur, real, sp = r.choice(raws), r.choice(raws), r.choice(raws)
                         if r.random() < 0.3:
                             real = cur
+                        elif r.random() < 0.35:
+                            # one device step apart (the two may show as the same tenth of a degree)
+                            cur = r.randrange(271, 720)
+                            real = cur + r.choice([-1, 1])
+                            sh.count("current_and_real_target_one_step_apart")
                         b = b0
                         for ref, raw in ((refs[K.KEY_DISPLAYED_TEMP_G], cur), (refs[K.KEY_REAL_SETPOINT_G], real), (refs[K.KEY_SETPOINT_G], sp)):
                             b = put_word(b, ref.pos, raw)
@@ -212,6 +229,11 @@ def shard_heater(sh: Shard, combos, seed):
                         except Exception as e:
                             sh.violation("C14:heater-raise", f"heater property raised {e!r}", dict(w, exc=describe_exc(e)))
                             continue
+                        if units_now not in ("C", "F"):
+                            # a setting beyond the labels: the presentation the accessors chose decides
+                            shown = "C" if (tgt, curt, realt) == (sp / 18.0, cur / 18.0, real / 18.0) else "F"
+                            w["unit_field"] = repr(units_now)
+                            w["units"] = units_now = shown
                         conv = (lambda x: x / 18.0) if units_now == "C" else (lambda x: (x + 320) / 10.0)
                         if (tgt, curt, realt) != (conv(sp), conv(cur), conv(real)):
                             sh.violation("C14:heater-temps", f"heater temperatures {(tgt, curt, realt)} != {(conv(sp), conv(cur), conv(real))}", w)
@@ -255,6 +277,7 @@ def main(tier, seed):
     ps = tables.combos() if tier == "thorough" else pairs()
     run.absorb(run_shards("checks.c14", "shard_heater", [{"combos": ps[i::n], "seed": seed} for i in range(n) if ps[i::n]], timeout=3000))
     run.need(run.counters.get("writebacks", 0) >= 65536 * 2 * 3, "exhaustive write-back incomplete")
+    run.need(run.counters.get("current_and_real_target_one_step_apart", 0) > 100 and run.counters.get("heater_with_unit_field_beyond_its_labels", 0) > 20, "adjacent temperatures / unit settings beyond the labels never driven")
     run.need(run.counters.get("operation_by_temperatures", 0) > 100 and run.counters.get("operation_by_both_flags", 0) > 100, "operation ladder branches not all exercised")
     run.need(run.counters.get("decimal_writes", 0) > 1000, "too few decimal writes")
     run.need(run.counters.get("heater_setter_writes", 0) > 500, "the heater setters were hardly exercised")
